@@ -574,6 +574,9 @@ def generate_real_spherical_harmonics_scipy(l_max: int, theta: np.ndarray, phi: 
 
     # sph_vals (i, j) corresponds to degree i and order j for all 0 <= i <= n and -m <= j <= m
     sph_vals = sph_harm_y_all(l_max, l_max, phi, theta)
+    # SciPy evaluates P_l^m(cos(phi)) with |sin(phi)|; sign(sin(phi))^m restores the spherical parametrisation
+    # for polar angles outside [0, pi] (same convention as generate_real_spherical_harmonics)
+    sin_sign = np.where(np.sin(phi) < 0, -1.0, 1.0)
 
     # Remove Conway phase from SciPy and apply sqrt(2) factor for m != 0.
     # Only non-negative orders m = 0..l_max are used below.
@@ -585,7 +588,11 @@ def generate_real_spherical_harmonics_scipy(l_max: int, theta: np.ndarray, phi: 
     total_sph = np.empty(((l_max + 1) ** 2, n_pts), dtype=float)
     for l_val in range(l_max + 1):
         # spherical harmonics for degree l_val and non-negative orders m = 0..l_val
-        sph_degree_pos = sph_vals[l_val, : l_val + 1] * phase_cor_pos[: l_val + 1, None]
+        sph_degree_pos = (
+            sph_vals[l_val, : l_val + 1]
+            * phase_cor_pos[: l_val + 1, None]
+            * sin_sign[None, :] ** np.arange(l_val + 1)[:, None]
+        )
         # degrees before l_val sum_k=0^(l_val-1) (2k+1) = l_val^2
         row_start = l_val**2
         row_end = (l_val + 1) ** 2
@@ -762,6 +769,8 @@ def generate_derivative_real_spherical_harmonics(l_max: int, theta: np.ndarray, 
     output = np.zeros((2, int((l_max + 1) ** 2), num_pts), dtype=np.longdouble)
 
     complex_expon = np.exp(-theta * 1.0j)  # Needed for derivative wrt to phi
+    # SciPy uses |sin(phi)| in P_l^m; restore the sign for polar angles outside [0, pi]
+    sin_sign = np.where(np.sin(phi) < 0, -1.0, 1.0)
     l_list = np.arange(l_max + 1)
     sph_harm_vals = generate_real_spherical_harmonics(l_max, theta, phi)
     i_output = 0
@@ -792,6 +801,7 @@ def generate_derivative_real_spherical_harmonics(l_max: int, theta: np.ndarray, 
             sph_harm_m = (
                 fac
                 * sph_harm_y(l_val, np.abs(int(m)) + 1, phi, theta)
+                * sin_sign ** (np.abs(int(m)) + 1)
                 * np.sqrt(2)
                 * (-1.0) ** float(m)
             )
